@@ -13,6 +13,8 @@ mod step;
 mod utils;
 pub mod variable;
 mod watchpoint;
+#[cfg(feature = "verif")]
+pub mod verif;
 
 pub use breakpoint::BreakpointView;
 pub use breakpoint::BreakpointViewOwned;
